@@ -266,6 +266,10 @@ fn body(case: &Case) -> Result<(), Failure> {
 }
 
 fn check(case: &Case, info: &mut CaseInfo, iters: usize) -> CheckResult {
+    if std::env::var_os("VH_SELFTEST_SEGV").is_some() && case.tasks.len() == 3 && case.lens.len() == 2 {
+        // self-test of the crash guard (never set by a registered command)
+        unsafe { std::ptr::write_volatile(8 as *mut u8, 1) };
+    }
     let mut cfg = RunCfg::random(case.seed, iters);
     cfg.stack = 64 << 10;
     cfg.max_steps = 20_000;
@@ -534,6 +538,7 @@ mod miri {
 
 pub fn run(ctx: &Ctx) -> ! {
     let mut rep = Report::new(ctx, "exploration");
+    rep.crash_guard = true;
     crate::engine_assumptions(&mut rep);
     rep.assume(
         "memory-safety oracle = quarantining global allocator (freed blocks are poisoned with 0xDD and withheld from \
